@@ -1,7 +1,8 @@
 (* C19 — evaluation entry points for the correspondence check (no proofs).
    harness/py/props/c19.py writes a cases file that imports this module. *)
 From Coq Require Import List NArith Bool.
-From Verif Require Import Model.C19_Filter.
+From Verif Require Import Model.C19_Filter Model.C19_Vlq.
+From Coq Require Import ZArith.
 Import ListNotations.
 
 Fixpoint list_eqb {A} (eqb : A -> A -> bool) (a b : list A) : bool :=
@@ -35,3 +36,31 @@ Fixpoint mismatches_from (i : N) (cs : list case) : list N :=
   end.
 
 Definition mismatches (cs : list case) : list N := mismatches_from 0 cs.
+
+(* ---- encoded maps: a case holds what the REAL code produced - the "mappings" string, Sources, Names -
+   and the REAL DecodedMappings() of that map and, where the mappings were handed to the real encoder by the harness, the
+   slice as the real sort left it (mc_input; otherwise mc_input = mc_decoded).  The model must (a) decode
+   the real string to exactly the real decoder's list, (b) encode mc_input to exactly the real string and
+   tables, and (c) agree that the round trip is [canon]. *)
+Record mcase := { mc_str : str; mc_srcs : list str; mc_names : list str; mc_input : list mapping; mc_decoded : list mapping }.
+
+Definition mapping_eqb (a b : mapping) : bool :=
+  Z.eqb (m_gl a) (m_gl b) && Z.eqb (m_gc a) (m_gc b) && str_eqb (m_file a) (m_file b) &&
+  Z.eqb (m_ol a) (m_ol b) && Z.eqb (m_oc a) (m_oc b) && str_eqb (m_name a) (m_name b).
+
+Definition mcase_ok (c : mcase) : bool :=
+  (match decode_mappings (mc_srcs c) (mc_names c) (mc_str c) with
+   | Some l => list_eqb mapping_eqb l (mc_decoded c)
+   | None => false
+   end) &&
+  (let '(s, a, b) := encode_mappings (mc_input c) in
+   str_eqb s (mc_str c) && list_eqb str_eqb a (mc_srcs c) && list_eqb str_eqb b (mc_names c)) &&
+  lines_sorted 1 (mc_input c) &&
+  list_eqb mapping_eqb (if last_has_file (mc_input c) then map canon (mc_input c) else removelast (map canon (mc_input c))) (mc_decoded c).
+
+Fixpoint mmismatches_from (i : N) (cs : list mcase) : list N :=
+  match cs with
+  | [] => []
+  | c :: r => if mcase_ok c then mmismatches_from (N.succ i) r else i :: mmismatches_from (N.succ i) r
+  end.
+Definition mmismatches (cs : list mcase) : list N := mmismatches_from 0 cs.
